@@ -485,6 +485,38 @@ pub enum DocKind {
 }
 
 pub fn document(rng: &mut Rng, kind: DocKind) -> String {
+    // one document in 125 is big - a few thousand lines, beyond 64 KiB: a threshold in the code
+    // ("large documents take the other path") must have documents on both sides of it
+    if rng.chance(8) {
+        return match kind {
+            DocKind::Valid => {
+                if rng.chance(250) {
+                    // one very long line (columns beyond 65 535), with something wrong near its end
+                    let n = *rng.pick(&[3000usize, 9000]);
+                    let mut t = String::from("proc main() {\n  var i: int; ");
+                    for k in 0..n {
+                        t.push_str(&format!("i := {}; ", k % 97));
+                    }
+                    t.push_str("i := 𝄞 ; j := 1;\n}\n");
+                    return t;
+                }
+                let n = *rng.pick(&[40usize, 120, 300]);
+                valid_program(rng, n)
+            }
+            DocKind::Broken => {
+                let n = *rng.pick(&[30usize, 100]);
+                broken_program(rng, n)
+            }
+            DocKind::Soup => {
+                let n = *rng.pick(&[700usize, 5000, 14000]);
+                soup(rng, n)
+            }
+            DocKind::Unicode => {
+                let n = *rng.pick(&[1000usize, 8000, 20000]);
+                unicode_text(rng, n)
+            }
+        };
+    }
     match kind {
         DocKind::Valid => {
             let n = rng.range(1, 6);
